@@ -794,15 +794,19 @@ func genCodecE2E(c *ctx) {
 		nprot int
 	}
 	var cases []*wcase
+	// escape on/off x compress yes/no/auto x protocol: as negotiated (4), forced 2, and the
+	// legacy protocol 1 (protocol field removed from the handshake: sendData per chunk)
 	for _, escape := range []bool{false, true} {
 		for _, comp := range []string{"yes", "no", "auto"} {
-			for rep := 0; rep < c.pick(2, 12); rep++ {
-				wc := &wcase{seed: c.rng.Int63()}
-				wc.cfg = e2eCfg{upload: true, binary: true, escape: escape, compress: comp, timeout: 10, proto: []int{-1, -1, 2, 0}[c.rng.Intn(4)],
-					bufsize: []string{"", "1k", "4k"}[c.rng.Intn(3)], quiet: true, deadline: 40 * time.Second}
-				wc.sizes = [][]int{{1, 700, 5000}, {513, 70000}, {131072, 3}, {40000}}[c.rng.Intn(4)]
-				wc.desc = fmt.Sprintf("%s sizes=%v seed=%d", describeCfg(wc.cfg), wc.sizes, wc.seed)
-				cases = append(cases, wc)
+			for _, proto := range []int{-1, 0, 2} {
+				for rep := 0; rep < c.pick(1, 6); rep++ {
+					wc := &wcase{seed: c.rng.Int63()}
+					wc.cfg = e2eCfg{upload: true, binary: true, escape: escape, compress: comp, timeout: 10, proto: proto,
+						bufsize: []string{"", "1k", "4k"}[c.rng.Intn(3)], quiet: true, deadline: 40 * time.Second}
+					wc.sizes = [][]int{{1, 700, 5000}, {513, 70000}, {131072, 3}, {40000}}[c.rng.Intn(4)]
+					wc.desc = fmt.Sprintf("%s sizes=%v seed=%d", describeCfg(wc.cfg), wc.sizes, wc.seed)
+					cases = append(cases, wc)
+				}
 			}
 		}
 	}
